@@ -251,7 +251,9 @@ class HelperFlow:
                     if op in ("==", "!=") and y.get("k") == "Ref" and y.get("dk") == "enum":
                         isfixed = y.get("qn", "").endswith("::Fixed")
                         if not isfixed:
-                            raise Incomplete("%s: comparison of _adapt_cgc with %s" % (v.name, render(y)))
+                            # `_adapt_cgc == MinEnergy` etc. (if-chain instead of a switch): decided when the correction is
+                            # fixed, data (either adaptive mode) otherwise
+                            return (op == "!=") if not self.ctx["adapt"] else None
                         return self.ctx["adapt"] == (op == "!=")
                     raise Incomplete("%s: condition %s on _adapt_cgc" % (v.name, render(a)))
             # _crs_level >= size_physical(): no coarse level on this process (decided for processes that own it)
